@@ -43,11 +43,11 @@ def gen_cases(tier, seed):
             ls[0] = 1 + (i // 3) % 3
         tp = list(bases.type_patterns(nsh)[(i // 2) % (2 ** nsh)]) if i % 2 else None
         shells, classes = bases.rand_basis(rng, ls, types=tp, scale=1.0, emax_fn=lambda l: min(bases.cap(l), 100.0), Kmax=3)
-        pts, pcls = bases.rand_points(rng, shells, int(rng.integers(1, 21)))
+        pts, pcls = bases.rand_points(rng, shells, bases.npts_pick(rng, 21))
         ntot = sum(bases.nfunc(s) for s in shells)
         T, tcls = bases.rand_transform(rng, ntot, "none" if i % 3 else None)
         norb = ntot if T is None else len(T)
-        dm, dcls = bases.rand_sym(rng, norb, ["psd", "indef", "psd-lowrank"][i % 3])
+        dm, dcls = bases.rand_sym(rng, norb, ["psd", "indef", "psd-lowrank", "diag-indef", "idempotent"][i % 5])
         if i % 2 == 0:
             a, b = AB[(i // 2) % len(AB)]
             abcls = "ab:special"
